@@ -26,7 +26,7 @@ REQUIRED_FEATURES = ["op:create-a", "op:create-w", "op:recreate-occupied", "op:c
                      "op:ln-hard", "op:ln-soft", "op:ln-external", "op:cp-onto-occupied", "op:cp-overwrite",
                      "via:cli", "via:api", "uri:no-leading-slash", "is_cooler:missing-group", "is_cooler:missing-file",
                      "is_cooler:non-hdf5", "is_cooler:dataset-path", "op:cp-to-root", "op:mv-onto-occupied",
-                     "op:ln-onto-occupied", "op:mv-spelling", "op:samefile-overwrite"]
+                     "op:ln-onto-occupied", "op:mv-spelling", "op:samefile-overwrite", "is_cooler:dangling-link"]
 
 PATHS = ["/a", "/b", "/g/x", "/g/y", "/h", "/k/deep/z"]
 
@@ -328,7 +328,9 @@ def one_history(ctx, cid, rng):
                             M.names[sf][dp] = ("obj", M.new_obj(M.content[M.resolve(sf, sp)]))   # answered: then a copy
                         changed = True
                 elif op == "mv":
-                    cands = [(ff, p) for ff, p in srcs if (ff, p) not in M.link_targets()]
+                    # (moving the target of a soft / external link leaves that link dangling: a name that resolves
+                    #  to nothing - it must then simply not be a collection, for the listing and the recognition test)
+                    cands = [(ff, p) for ff, p in srcs if (ff, p) not in M.link_targets() or step % 2]
                     if not cands:
                         continue
                     sf, sp = cands[int(rng.integers(len(cands)))]
@@ -439,6 +441,14 @@ def verify(c, M, files, fileops, runner, cli, rng, hist):
                 c.check(len(a) == 1, "hard-links-do-not-share-object", "names of one object resolve to different HDF5 objects")
             alla = [next(iter(a)) for a in addr.values() if len(a) == 1]
             c.check(len(set(alla)) == len(alla), "copies-share-object", "a copy shares its HDF5 object with its source")
+        for p in [q for q in M.names[f] if M.resolve(f, q) is None]:
+            c.feature("is_cooler:dangling-link")
+            try:
+                r = fileops.is_cooler(f + "::" + p)
+            except Exception as e:  # noqa
+                r = f"raises {type(e).__name__}"
+            ok &= c.check(r is False, "is_cooler-dangling-link", f"is_cooler({os.path.basename(f)}::{p}) for a link whose "
+                          f"target no longer exists -> {r}", {"history": hist})
         for p in want:
             if rng.random() < 0.5:
                 # the ordinary interface reads the collection's own tables, wherever it sits
